@@ -24,8 +24,16 @@ theorem runStartsOnEmptyStack_tie : Risor.Generated.C18.runStartsOnEmptyStack = 
 
 /-- reloadCode gives the main code a fresh Globals slice and copies the old values into it by
     position — Go's `copy`, the model's `copyInto` in `reloadBySlot` (layer 7)
-    (functions loaded earlier keep the old slice: `VM.old`) -/
+    (layer 4 `reloadGens`) -/
 theorem reloadCopies_tie : Risor.Generated.C18.reloadCopiesGlobals = true := by decide
+
+/-- … and forgets, before it wraps the main code afresh, every loaded code object whose `Root()` is the
+    main code: no function of the main code keeps the old slice (`reloadKeeps = []`, layer 4 `BCtl.next`
+    binds every function constant to the generation of the current run; repair of
+    C18-function-globals-snapshot — if the loop is lost, this tie breaks and the sessions with functions
+    called from later pieces are violations again) -/
+theorem reloadDropsMainFunctions_tie :
+    Risor.Generated.C18.reloadDropsMainFunctions = reloadDropsMainFunctions := by decide
 
 /-- Compile rolls back on error (`Repl.feed`: a rejected piece leaves the machine as it was; repair of
     C18-rejected-piece-code-runs-later): the mark is taken first, every error return follows
@@ -56,7 +64,7 @@ theorem compileOnlyRestores_tie : Risor.Generated.C18.compileOnlyRestores = comp
 theorem startClearsHalt_tie : Risor.Generated.C18.startClearsHaltUnconditionally = haltClearedForEveryContext := by decide
 
 /-- every Run loads — binds to its generation of the globals — every function constant of the main
-    code that is not loaded yet (layer 4, `BCtl.next`) -/
+    code (none is loaded after a reload: `reloadDropsMainFunctions_tie`; layer 4, `BCtl.next`) -/
 theorem loadsFunctionConstants_tie : Risor.Generated.C18.loadsFunctionConstantsEveryRun = true := by decide
 
 /-- the import cache (layer 6, `importCacheResetEveryRun = false`): `vm.modules` is replaced or cleared
